@@ -75,10 +75,23 @@ class AsyncCircusClient(object):
         except zmq.ZMQError as e:
             raise CallError(str(e))
 
+        # replies may arrive in a burst (a stale one followed by ours): queue
+        # them, a future can only take the first one
+        inbox = []
+        waiter = [None]
+
+        def on_recv(messages):
+            inbox.append(messages)
+            if waiter[0] is not None and not waiter[0].done():
+                waiter[0].set_result(None)
+
+        self.stream.on_recv(on_recv)
+
         while True:
-            future = concurrent.Future()
-            self.stream.on_recv(future.set_result)
-            messages = yield future
+            if not inbox:
+                waiter[0] = concurrent.Future()
+                yield waiter[0]
+            messages = inbox.pop(0)
 
             for message in messages:
                 try:
